@@ -12,7 +12,7 @@ CONSTANTS
   WAYSEQS = {0, 1}
   HSSIGS = {"own", "bad", "zero64", "junk0", "junk63"}
   HSRECS = {"none", "own2", "own9", "claimed1"}
-  MSGSEL = {"req", "junk", "pong", "nodes2", "intok", "intforeign", "intlate", "intnone"}
+  MSGSEL = {"req", "junk", "pong", "nodes2", "intok", "intforeign", "intlate", "intnone", "zerokey"}
   DEPTH = 40
 INVARIANTS Emit
 VIEW View
